@@ -71,6 +71,10 @@ type Sched struct {
 	Monitor  func() string // invariant evaluated after every step
 	MaxSteps int
 	Stop     func() bool // optional: end the exploration early (time budget)
+	// Policy, when set, answers the scheduling points beyond the replayed prefix (instead of choice 0): it gets the
+	// enabled threads in canonical order and the running thread and returns an index into enabled. Used for single
+	// directed schedules (e.g. lock-step round robin with hundreds of threads), never by the explorer.
+	Policy func(enabled []int, cur int) int
 	abort    bool
 	// HB
 	lastWrite map[uintptr]acc
@@ -196,6 +200,8 @@ func (s *Sched) run(bodies []func(), prefix []int) *Exec {
 				s.kill()
 				break
 			}
+		} else if s.Policy != nil {
+			choice = s.Policy(enabled, cur)
 		}
 		s.exec.Points = append(s.exec.Points, Point{Enabled: enabled, Chosen: choice, Cur: cur})
 		t := s.threads[enabled[choice]]
@@ -346,8 +352,23 @@ func FieldAccess(field string, write bool) {
 	}
 }
 
-// RelaxedRead records a plain load of a synchronisation word (no HB edge, no race report).
-func RelaxedRead(addr uintptr) {}
+// RelaxedRead records a plain load of a synchronisation word. On x86-64 (TSO) every load has acquire semantics: the
+// reader learns everything that happened before the store it reads from, so the load joins the clock published at the
+// word by its last synchronising write. It publishes nothing itself, and it is never reported as a data access.
+func RelaxedRead(addr uintptr) {
+	s := S
+	if s == nil {
+		return
+	}
+	t := s.cur
+	if vc, ok := s.syncVC[addr]; ok {
+		for i := range vc {
+			if vc[i] > t.vc[i] {
+				t.vc[i] = vc[i]
+			}
+		}
+	}
+}
 
 // PlainLockWordWrite is a non-atomic store to a word that is otherwise only
 // accessed atomically: it is a release without the read half; it is treated as
@@ -494,6 +515,16 @@ func parseOperand(s string) operand {
 		i := strings.LastIndexAny(body, "+-")
 		off, _ := strconv.ParseInt(body[i:], 0, 64)
 		return operand{kind: "fp", sym: body[:i], off: off}
+	case strings.HasSuffix(s, "(SP)"):
+		body := strings.TrimSuffix(s, "(SP)")
+		i := strings.LastIndexAny(body, "+-")
+		off := int64(0)
+		if i >= 0 {
+			off, _ = strconv.ParseInt(body[i:], 0, 64)
+		} else if body != "" {
+			off, _ = strconv.ParseInt(body, 0, 64)
+		}
+		return operand{kind: "sp", off: off}
 	case strings.HasSuffix(s, "(SB)"):
 		body := strings.TrimSuffix(s, "(SB)")
 		i := strings.LastIndexAny(body, "+-")
@@ -575,13 +606,20 @@ func ParseAsm(src, fn string) *Program {
 var supportedOps = map[string]bool{"MOVQ": true, "MOVL": true, "XCHGL": true, "XCHGQ": true, "TESTL": true, "TESTQ": true, "CMPL": true, "CMPQ": true,
 	"DECL": true, "INCL": true, "ADDL": true, "SUBL": true, "XORL": true, "XORQ": true, "ANDL": true, "ORL": true,
 	"JNZ": true, "JNE": true, "JZ": true, "JE": true, "JEQ": true, "JMP": true, "PAUSE": true, "CALL": true, "RET": true,
-	"LOCK": true, "CMPXCHGL": true, "MFENCE": true, "NOP": true}
+	"LOCK": true, "CMPXCHGL": true, "MFENCE": true, "NOP": true,
+	"XADDL": true, "SHRL": true, "SHLL": true, "SHRQ": true, "SHLQ": true, "CMPB": true, "CMPW": true, "MOVW": true, "MOVB": true,
+	"MOVWLZX": true, "MOVBLZX": true, "MOVWQZX": true, "MOVBQZX": true, "MOVLQZX": true, "ADDQ": true, "SUBQ": true, "ANDQ": true, "ORQ": true,
+	"NOTL": true, "NEGL": true, "INCQ": true, "DECQ": true, "TESTB": true, "TESTW": true,
+	"JLT": true, "JGE": true, "JGT": true, "JLE": true, "JCS": true, "JLO": true, "JCC": true, "JHS": true, "JHI": true, "JLS": true}
 
 type CPU struct {
 	pc    int
 	regs  map[string]uint64
 	zf    bool
-	phase uint64 // 1 while an un-LOCKed read-modify-write is between its load and its store
+	cf    bool             // unsigned below (after CMP a,b / SUB: a < b)
+	lt    bool             // signed less (after CMP a,b: a < b)
+	stack map[int64]uint64 // local frame slots (name-8(SP))
+	phase uint64           // 1 while an un-LOCKed read-modify-write is between its load and its store
 }
 
 func (c *CPU) key() uint64 {
@@ -590,16 +628,54 @@ func (c *CPU) key() uint64 {
 		k = k*1000003 + c.regs[r]
 	}
 	k = k*1000003 + c.phase
+	if len(c.stack) > 0 {
+		offs := make([]int64, 0, len(c.stack))
+		for o := range c.stack {
+			offs = append(offs, o)
+		}
+		sort.Slice(offs, func(i, j int) bool { return offs[i] < offs[j] })
+		for _, o := range offs {
+			k = (k*1000003+uint64(o))*1000003 + c.stack[o]
+		}
+	}
 	if c.zf {
 		k ^= 1 << 63
+	}
+	if c.cf {
+		k ^= 1 << 62
+	}
+	if c.lt {
+		k ^= 1 << 61
 	}
 	return k
 }
 
 // Run interprets the program. frame holds the FP argument bytes; globals maps SB symbols to addresses.
 func (p *Program) Run(frame []byte, globals map[string]uintptr) {
-	c := &CPU{regs: map[string]uint64{}}
+	c := &CPU{regs: map[string]uint64{}, stack: map[int64]uint64{}}
+	// byte registers name the low byte of the full register (AL -> AX, ...)
+	subReg := func(r string) (string, bool) {
+		switch r {
+		case "AL", "BL", "CL", "DL":
+			return r[:1] + "X", true
+		}
+		return r, false
+	}
+	mask := func(n int) uint64 {
+		if n >= 8 {
+			return ^uint64(0)
+		}
+		return uint64(1)<<(8*uint(n)) - 1
+	}
 	size := func(op string) int {
+		switch op {
+		case "MOVWLZX", "MOVWQZX":
+			return 2
+		case "MOVBLZX", "MOVBQZX":
+			return 1
+		case "MOVLQZX":
+			return 4
+		}
 		if strings.HasSuffix(op, "Q") {
 			return 8
 		}
@@ -630,11 +706,10 @@ func (p *Program) Run(frame []byte, globals map[string]uintptr) {
 		case "imm":
 			return uint64(o.imm)
 		case "reg":
-			v := c.regs[o.reg]
-			if n == 4 {
-				v &= 0xffffffff
-			}
-			return v
+			r, _ := subReg(o.reg)
+			return c.regs[r] & mask(n)
+		case "sp":
+			return c.stack[o.off] & mask(n)
 		case "fp":
 			var v uint64
 			for i := 0; i < n; i++ {
@@ -643,8 +718,13 @@ func (p *Program) Run(frame []byte, globals map[string]uintptr) {
 			return v
 		default:
 			a := addrOf(o)
-			if n == 8 {
+			switch n {
+			case 8:
 				return *(*uint64)(unsafe.Pointer(a))
+			case 2:
+				return uint64(*(*uint16)(unsafe.Pointer(a)))
+			case 1:
+				return uint64(*(*uint8)(unsafe.Pointer(a)))
 			}
 			return uint64(*(*uint32)(unsafe.Pointer(a)))
 		}
@@ -652,10 +732,17 @@ func (p *Program) Run(frame []byte, globals map[string]uintptr) {
 	store := func(o operand, n int, v uint64) {
 		switch o.kind {
 		case "reg":
-			if n == 4 {
-				v &= 0xffffffff
+			r, _ := subReg(o.reg)
+			switch n {
+			case 1, 2: // narrow writes keep the upper bits of the register
+				c.regs[r] = c.regs[r]&^mask(n) | v&mask(n)
+			case 4:
+				c.regs[r] = v & 0xffffffff // 32-bit writes zero-extend
+			default:
+				c.regs[r] = v
 			}
-			c.regs[o.reg] = v
+		case "sp":
+			c.stack[o.off] = c.stack[o.off]&^mask(n) | v&mask(n)
 		case "mem", "sb":
 			a := addrOf(o)
 			if n == 8 {
@@ -663,6 +750,16 @@ func (p *Program) Run(frame []byte, globals map[string]uintptr) {
 					Wrote()
 				}
 				*(*uint64)(unsafe.Pointer(a)) = v
+			} else if n == 2 {
+				if *(*uint16)(unsafe.Pointer(a)) != uint16(v) {
+					Wrote()
+				}
+				*(*uint16)(unsafe.Pointer(a)) = uint16(v)
+			} else if n == 1 {
+				if *(*uint8)(unsafe.Pointer(a)) != uint8(v) {
+					Wrote()
+				}
+				*(*uint8)(unsafe.Pointer(a)) = uint8(v)
 			} else {
 				if *(*uint32)(unsafe.Pointer(a)) != uint32(v) {
 					Wrote()
@@ -693,7 +790,49 @@ func (p *Program) Run(frame []byte, globals map[string]uintptr) {
 		lockPrefix := lockNext
 		lockNext = false
 		switch it.op {
-		case "MOVQ", "MOVL":
+		case "MOVWLZX", "MOVBLZX", "MOVWQZX", "MOVBQZX", "MOVLQZX":
+			if shared(it.a[0]) {
+				RelaxedRead(addrOf(it.a[0]))
+			}
+			store(it.a[1], 8, load(it.a[0], n))
+		case "SHRL", "SHLL", "SHRQ", "SHLQ":
+			cnt := load(it.a[0], 1) & 63
+			v := load(it.a[1], n)
+			if it.op[2] == 'R' {
+				v >>= cnt
+			} else {
+				v = v << cnt & mask(n)
+			}
+			store(it.a[1], n, v)
+			c.zf = v == 0
+		case "NOTL":
+			store(it.a[0], 4, ^load(it.a[0], 4)&0xffffffff)
+		case "NEGL":
+			v := (-load(it.a[0], 4)) & 0xffffffff
+			store(it.a[0], 4, v)
+			c.zf = v == 0
+		case "XADDL":
+			// XADDL reg, mem: tmp = mem; mem += reg; reg = tmp
+			r, m := it.a[0], it.a[1]
+			if shared(m) {
+				if lockPrefix {
+					SyncOp(addrOf(m))
+				} else {
+					RelaxedRead(addrOf(m))
+				}
+			}
+			old := load(m, 4)
+			if shared(m) && !lockPrefix {
+				c.phase = 1
+				Step(c.key()) // un-LOCKed read-modify-write: the store is a separate step
+				c.phase = 0
+				PlainLockWordWrite(addrOf(m))
+			}
+			sum := (old + load(r, 4)) & 0xffffffff
+			store(m, 4, sum)
+			store(r, 4, old)
+			c.zf = sum == 0
+		case "MOVQ", "MOVL", "MOVW", "MOVB":
 			if shared(it.a[0]) {
 				RelaxedRead(addrOf(it.a[0])) // plain load of a lock word: a hint that is re-validated by XCHG; not a data access
 			}
@@ -710,20 +849,39 @@ func (p *Program) Run(frame []byte, globals map[string]uintptr) {
 			old := load(m, n)
 			store(m, n, load(r, n))
 			store(r, n, old)
-		case "TESTL", "TESTQ":
+		case "TESTL", "TESTQ", "TESTB", "TESTW":
 			c.zf = load(it.a[0], n)&load(it.a[1], n) == 0
 		case "DECL":
 			v := (load(it.a[0], 4) - 1) & 0xffffffff
 			store(it.a[0], 4, v)
 			c.zf = v == 0
-		case "CMPL", "CMPQ":
+		case "CMPL", "CMPQ", "CMPW", "CMPB":
 			// Plan 9 operand order: CMPL a, b sets flags for a-b
-			c.zf = load(it.a[0], n) == load(it.a[1], n)
+			if shared(it.a[0]) {
+				RelaxedRead(addrOf(it.a[0]))
+			}
+			if shared(it.a[1]) {
+				RelaxedRead(addrOf(it.a[1]))
+			}
+			a, b := load(it.a[0], n), load(it.a[1], n)
+			c.zf = a == b
+			c.cf = a < b
+			sh := uint(64 - 8*n)
+			c.lt = int64(a<<sh) < int64(b<<sh)
 		case "INCL":
 			v := (load(it.a[0], 4) + 1) & 0xffffffff
 			store(it.a[0], 4, v)
 			c.zf = v == 0
-		case "ADDL", "SUBL", "XORL", "XORQ", "ANDL", "ORL":
+		case "INCQ", "DECQ":
+			v := load(it.a[0], 8)
+			if it.op == "INCQ" {
+				v++
+			} else {
+				v--
+			}
+			store(it.a[0], 8, v)
+			c.zf = v == 0
+		case "ADDL", "SUBL", "XORL", "XORQ", "ANDL", "ORL", "ADDQ", "SUBQ", "ANDQ", "ORQ":
 			if shared(it.a[1]) {
 				if lockPrefix {
 					SyncOp(addrOf(it.a[1]))
@@ -740,15 +898,16 @@ func (p *Program) Run(frame []byte, globals map[string]uintptr) {
 			}
 			var v uint64
 			switch it.op {
-			case "ADDL":
+			case "ADDL", "ADDQ":
 				v = b + a
-			case "SUBL":
+			case "SUBL", "SUBQ":
 				v = b - a
+				c.cf = b < a
 			case "XORL", "XORQ":
 				v = b ^ a
-			case "ANDL":
+			case "ANDL", "ANDQ":
 				v = b & a
-			case "ORL":
+			case "ORL", "ORQ":
 				v = b | a
 			}
 			if n == 4 {
@@ -796,6 +955,38 @@ func (p *Program) Run(frame []byte, globals map[string]uintptr) {
 			}
 		case "JZ", "JE", "JEQ":
 			if c.zf {
+				next = p.label(it)
+			}
+		case "JLT":
+			if c.lt {
+				next = p.label(it)
+			}
+		case "JGE":
+			if !c.lt {
+				next = p.label(it)
+			}
+		case "JGT":
+			if !c.lt && !c.zf {
+				next = p.label(it)
+			}
+		case "JLE":
+			if c.lt || c.zf {
+				next = p.label(it)
+			}
+		case "JCS", "JLO":
+			if c.cf {
+				next = p.label(it)
+			}
+		case "JCC", "JHS":
+			if !c.cf {
+				next = p.label(it)
+			}
+		case "JHI":
+			if !c.cf && !c.zf {
+				next = p.label(it)
+			}
+		case "JLS":
+			if c.cf || c.zf {
 				next = p.label(it)
 			}
 		case "JMP":
